@@ -174,8 +174,8 @@ let run_conn timeo outs ops =
     | Ok (obs1, r1) ->
       (* trailer: cancel whatever is still pending *)
       let tail = match conn_script r1 [CopCancel] with Ok (o, _) -> Ok o | Fault -> Fault | AssertFail -> AssertFail | OutOfFuel -> OutOfFuel in
-      List.concat_map show_cobs obs0 @ [start] @ List.concat_map show_cobs obs1 @ [fin r1; "end"] @
-      show_res_c (fun o -> List.concat_map show_cobs o @ [Printf.sprintf "open=%d" (opened (obs0 @ obs1 @ o))]) tail
+      List.concat_map show_cobs obs0 @ [start] @ List.concat_map show_cobs obs1 @ [fin r1] @
+      show_res_c (fun o -> List.concat_map show_cobs o @ [Printf.sprintf "open=%d" (opened (obs0 @ obs1 @ o)); "end"]) tail
     | r -> List.concat_map show_cobs obs0 @ [start] @ show_res_c (fun _ -> []) r in
   String.concat " " toks
 
